@@ -91,6 +91,7 @@ class Recorder(object):
         self.bounded = False
         self.term_obj = None       # None = solver default
         self.in_call = False
+        self.kwpend = None         # evaluation monitor handed over by keyword, not yet seen installed
         s.SetObjective(self.cost)
         # evaluation monitor from the start (the property's "default in-process map" clause)
         s.SetEvaluationMonitor(Monitor())
@@ -135,6 +136,13 @@ class Recorder(object):
 
     def snap(self):
         s = self.solver
+        if self.kwpend is not None and s._evalmon is self.kwpend["m"]:
+            # the keyword was processed: the monitor changed hands before the cost calls made since the call began
+            kp, self.kwpend = self.kwpend, None
+            keep = kp["on"] and self.evmon_on
+            if not keep:
+                self.em_base = kp["at"]
+            self.evmon_on = kp["on"]
         hist = list(s.energy_history)
         eh_mono = all(not (hist[i + 1] > hist[i]) for i in range(len(hist) - 1))
         best_e = s.bestEnergy
@@ -167,23 +175,52 @@ class Recorder(object):
         self.events.append(e)
 
     # ---- public operations (the script alphabet) ------------------------------------------
-    def _kw(self):
-        return {"callback": self.callback} if self.with_callback else {}
+    def _kw(self, kw=None):
+        """keyword arguments of Step / Solve; `kw` = configuration handed over by keyword instead of a Set* call:
+        a list of ["evalmon", new(ignored: keywords prepend), on] / ["stepmon", kind] / ["cfg", "pen"|"cons"]"""
+        d = {"callback": self.callback} if self.with_callback else {}
+        recs = []
+        import mystic.monitors as mm
+        order = {"evalmon": 0, "stepmon": 1, "pen": 2, "cons": 3}
+        for it in sorted(kw or [], key=lambda it: order[it[1] if it[0] == "cfg" else it[0]]):
+            if it[0] == "evalmon":
+                on = bool(it[2])
+                m = mm.Monitor() if on else mm.Null()
+                d["EvaluationMonitor"] = m
+                self.kwpend = {"m": m, "on": on, "at": len(self.calls)}
+                recs.append({"what": "evalmon", "new": False, "on": on})
+            elif it[0] == "stepmon":
+                kind = it[1]
+                d["StepMonitor"] = (mm.VerboseMonitor(10 ** 9) if kind == "verbose" else None if kind == "none" else
+                                    mm.Null() if kind == "null" else mm.Null if kind == "nullclass" else mm.Monitor())
+                recs.append({"what": "stepmon", "new": False, "on": True})
+            elif it[0] == "cfg" and it[1] == "pen":
+                d["penalty"] = lambda x: 0.0 * sum(x)
+                recs.append({"what": "pen", "new": False, "on": True})
+            elif it[0] == "cfg" and it[1] == "cons":
+                d["constraints"] = lambda x: x
+                recs.append({"what": "cons", "new": False, "on": True})
+            else:
+                raise ValueError(it)
+        return d, recs
 
-    def step(self):
-        self.events.append({"ev": "Call", "mode": "step"})
+    def step(self, kw=None):
+        kwargs, recs = self._kw(kw)
+        self.events.append(dict({"ev": "Call", "mode": "step"}, **({"kw": recs} if recs else {})))
         try:
-            msg = self.solver.Step(**self._kw())
+            msg = self.solver.Step(**kwargs)
         except Exception as ex:
             self.emit("Raise", what=repr(ex)[:200])
             raise
         self.emit("Ret", msg=msgclass(msg))
+        self.kwpend = None          # a Step that stopped at its pre-check never looked at its keywords
         return msg
 
-    def solve(self):
-        self.events.append({"ev": "Call", "mode": "solve"})
+    def solve(self, kw=None):
+        kwargs, recs = self._kw(kw)
+        self.events.append(dict({"ev": "Call", "mode": "solve"}, **({"kw": recs} if recs else {})))
         try:
-            self.solver.Solve(**self._kw())
+            self.solver.Solve(**kwargs)
         except Exception as ex:
             self.emit("Raise", what=repr(ex)[:200])
             raise
